@@ -322,6 +322,9 @@ func dispatchVerdict(best *rmodel.Deriv, obs observed) string {
 func paramsVerdict(best *rmodel.Deriv, obs observed) string {
 	want := best.Params()
 	for k, v := range want {
+		if k == "route" && obs.flame {
+			continue // a bind that is itself called `route` is overwritten by the reserved parameter (checked below)
+		}
 		got, ok := obs.params[k]
 		if !ok {
 			return fmt.Sprintf("bind %q missing; want %q", k, v)
@@ -458,6 +461,17 @@ func paramPredicates(w *core.W, path string, best *rmodel.Deriv, obs observed) s
 	if pctFree {
 		// observed values are raw substrings; judge them directly against the route's own declaration
 		for _, s := range best.Form.Segs {
+			if obs.flame && len(s.Binds) > 0 {
+				skip := false
+				for _, b := range s.Binds {
+					if b == "route" {
+						skip = true // replaced by the reserved parameter inside a handler
+					}
+				}
+				if skip {
+					continue
+				}
+			}
 			switch s.Kind {
 			case rmodel.KRegex:
 				for i, b := range s.Binds {
@@ -497,9 +511,12 @@ func paramPredicates(w *core.W, path string, best *rmodel.Deriv, obs observed) s
 	want := expectedRoundTrip(best, ps)
 	vals := map[string]string{}
 	for k, v := range obs.params {
-		if k != "route" {
+		if k != "route" || !obs.flame {
 			vals[k] = v
 		}
+	}
+	if _, has := best.Raw["route"]; has && obs.flame {
+		return "" // the value of a bind that is itself called `route` is replaced by the reserved parameter: nothing to substitute back
 	}
 	usedOptional := !best.Form.Short
 	var got string
